@@ -9,6 +9,18 @@ NOTE_COMMON = ("Trusted: Coq 8.16.1 kernel + vm_compute; hand-written Gallina mo
                "no axioms (Print Assumptions re-read every run).")
 
 CHECKS = {
+ "C09": dict(
+  text="Coq theorems (Closed under the global context) about the model of PacketBuilder::feed, for every byte stream and EVERY partition "
+       "into receive buffers, of any length: drain_chunks = drain of the concatenation (same results, same order, same final state); those "
+       "results are exactly the frames of an independent declarative reading of the stream; one call returns at most one frame, never reads "
+       "past its buffer and always makes progress; bytes are conserved (none lost, duplicated, reordered); a five-byte Remaining Length is an "
+       "error after which framing resumes at the next byte. Tie: per-call differential correspondence on PacketBuilder::feed (result, body, "
+       "cursor advance) incl. every single split point of short streams, plus a monitor comparing the implementation's results under any "
+       "chunking with the declarative specification. The connection-level clause (events of recv over any chunking) is covered by the "
+       "connection model's correspondence once C05 is claimed; here it is the framing layer.",
+  ref="DESIGN.md §3 C09, §2.3",
+  note=NOTE_COMMON + " Connection::recv is one feed() call followed by packet processing; the lift of chunking independence to connection events is stated in the connection layer.",
+  technique="Coq proof of chunking independence (feed_app/drain_app by induction) + refinement to a declarative frame spec + differential correspondence"),
  "C20": dict(
   text="Coq theorems (C20_alloc_refines_set and six companions, Closed under the global context): for every range, every integer width and "
        "every contract-respecting operation sequence of any length, the interval-list model of ValueAllocator never panics or overflows, "
